@@ -19,11 +19,43 @@ package negotiation
 //@ requires snapshot-invariant: wf(snapshot)
 //@ end
 
+// The snapshot invariant is established where snapshots are made: clientHelloExtensions walks the
+// four length-prefixed vectors after the random and returns the rest of the body.
+
+//@ define POS() (offsetOf(remainder) - offsetOf(body))
+
+//@ func clientHelloExtensions
+//@ ensures suffix: result1 == nil ==> len(result0) <= len(body) && sameArray(result0, body) && offsetOf(result0) + len(result0) == offsetOf(body) + len(body)
+//@ ensures cookie-length-inside: result1 == nil ==> len(body) >= 36 && 35 + int(body[34]) < len(body)
+//@ ensures extensions-after-cookie: result1 == nil ==> 36 + int(body[34]) + int(body[35 + int(body[34])]) <= len(body) - len(result0)
+//@ loop #1: suffix: sameArray(remainder, body) && offsetOf(remainder) + len(remainder) == offsetOf(body) + len(body) && POS() >= 34 && len(body) >= 34
+//@ loop #1: at-session-id: idx == 0 ==> POS() == 34
+//@ loop #1: at-cookie: idx == 1 ==> len(body) >= 35 && POS() == 35 + int(body[34])
+//@ loop #1: past-cookie: idx >= 2 ==> len(body) >= 36 && 35 + int(body[34]) < len(body) && POS() >= 36 + int(body[34]) + int(body[35 + int(body[34])])
+//@ end
+
+//@ func snapshotClientHello
+//@ ensures snapshot-invariant: result1 == nil ==> wf(result0)
+//@ ensures failed-is-invalid: result1 != nil ==> len(result0.body) == 0
+//@ end
+
+// The CID / use_srtp extension comparisons are separate steps; this property only needs that
+// they do not touch their inputs, so callers see them as opaque (result unknown).
+
+//@ func validateHelloVerifyExtension
+//@ noinline
+//@ end
+
+//@ func ValidateSRTPRetry
+//@ noinline
+//@ end
+
 //@ func ValidateHelloVerifyRequestResponse
 //@ requires snapshot-invariant: (len(initial.body) != 0 ==> wf(initial)) && (len(retry.body) != 0 ==> wf(retry))
 //@ ensures both-present: result == nil ==> len(initial.body) != 0 && len(retry.body) != 0
-//@ ensures cookie-echoed: result == nil ==> bytesEq(retry.body[CS(retry):CE(retry)], cookie)
-//@ ensures same-before-cookie: result == nil ==> bytesEq(initial.body[:CO(initial)], retry.body[:CO(retry)])
-//@ ensures same-after-cookie: result == nil ==> bytesEq(initial.body[CE(initial):initial.extensionOffset], retry.body[CE(retry):retry.extensionOffset])
-//@ ensures otherwise-identical-extensions: result == nil ==> bytesEq(initial.body[initial.extensionOffset:], retry.body[retry.extensionOffset:])
+//@ ensures cookie-echoed: result == nil ==> old(bytesEq(retry.body[CS(retry):CE(retry)], cookie))
+//@ ensures same-before-cookie: result == nil ==> old(bytesEq(initial.body[:CO(initial)], retry.body[:CO(retry)]))
+//@ ensures same-after-cookie: result == nil ==> old(bytesEq(initial.body[CE(initial):initial.extensionOffset], retry.body[CE(retry):retry.extensionOffset]))
+//@ ensures otherwise-identical-extensions-length: result == nil ==> len(initial.body) - initial.extensionOffset == len(retry.body) - retry.extensionOffset
+//@ ensures otherwise-identical-extensions: result == nil ==> old(bytesEq(initial.body[initial.extensionOffset:], retry.body[retry.extensionOffset:]))
 //@ end
